@@ -21,8 +21,8 @@ ASSUMPTIONS = [
     "projects are limited to the generator's shapes (nesting <= 3, <= 3 dimensions, BOOL arrays one-dimensional)",
     "memory images force string LEN fields into [0, capacity]; everything else is arbitrary bytes",
 ]
-FLOORS = {"quick": {"read.struct": 50, "read.boolarray.range": 20, "read.intbit": 20, "multi-packet-split": 5, "fragmented-read": 20,
-                    "read.string": 20, "read.member.atomic": 20},
+FLOORS = {"quick": {"read.struct": 50, "read.boolarray.range": 20, "read.intbit": 20, "multi-packet-split": 5, "fragmented-read": 150,
+                    "read.string": 20, "read.member.atomic": 20, "multi-service": 900},   # the last two also fall when open() fails for many cases
           "thorough": {"read.struct": 1000, "read.boolarray.range": 500, "multi-packet-split": 100, "fragmented-read": 500}}
 PROPS = ("C01",)
 
